@@ -13,7 +13,7 @@ import numpy as np
 GATES1 = {"Dgate": 2, "Sgate": 2, "Rgate": 1, "Xgate": 1, "Zgate": 1, "Fouriergate": 0, "Vgate": 1, "Kgate": 1,
           "Pgate": 1}
 GATES2 = {"BSgate": 2, "MZgate": 2, "sMZgate": 2, "S2gate": 2, "CKgate": 1, "CXgate": 1, "CZgate": 1}
-PREPS = {"Vacuum": 0, "Coherent": 2, "Squeezed": 2, "DisplacedSqueezed": 4, "Thermal": 1, "Fock": 1}
+PREPS = {"Vacuum": 0, "Coherent": 2, "Squeezed": 2, "DisplacedSqueezed": 4, "Thermal": 1, "Fock": 1, "Catstate": 1}
 CHANNELS = {"LossChannel": 1, "ThermalLossChannel": 2}
 MEAS = {"MeasureHomodyne": 1, "MeasureFock": 0}
 BACKEND_CLASSES = {
